@@ -62,6 +62,7 @@ class Contract:
     proofs: List[ProofSplice] = field(default_factory=list)
     closures: List[ClosureSpec] = field(default_factory=list)
     bodytags: Dict[str, tuple] = field(default_factory=dict)
+    holds: List[tuple] = field(default_factory=list)   # (var, decl_regex, until_regex, oid, tags, src)
     ghost: str = ''                 # ghost members appended inside the item body (struct/impl/trait)
     stub: bool = False
     after: str = ''                 # ghost items emitted right after the item
@@ -185,6 +186,11 @@ def parse_file(path: str) -> List[Contract]:
                 else:
                     raise ContractError('%s: bad @closure line %r' % (where, l))
             cur.closures.append(cs)
+        elif d == 'holds':
+            mm = re.match(r'(\w+)\s+from\s+/(.*?)/\s+until\s+/(.*)/\s+(\S+)\s+\[([^\]]*)\]\s*$', arg)
+            if not mm:
+                raise ContractError('%s: @holds <var> from /re/ until /re/ <id> [tags]' % where)
+            cur.holds.append((mm.group(1), mm.group(2), mm.group(3), mm.group(4), mm.group(5).split(), where))
         elif d == 'bodytag':
             mm = re.match(r'(\w+)\s+(\S+)\s+\[([^\]]*)\]\s*$', arg)
             if not mm:
